@@ -1,5 +1,5 @@
 (** * C17 -- feeding a program in pieces *)
-From QV Require Import Interp C17T.
+From QV Require Import Interp Sym C17T C17T2.
 
 Theorem C17_record : C17_record_stmt.
 Proof. exact C17_record_proof. Qed.
@@ -12,3 +12,7 @@ Print Assumptions C17_add_chunks.
 Theorem C17_legacy : C17_legacy_stmt.
 Proof. exact C17_legacy_proof. Qed.
 Print Assumptions C17_legacy.
+
+Theorem C17_changes : C17_changes_stmt.
+Proof. exact C17_changes_proof. Qed.
+Print Assumptions C17_changes.
